@@ -263,6 +263,56 @@ public:
 private:
   inner d_;
 };
+// a user distribution that KEEPS STATE between draws (never the same value twice in a row where the interval allows it):
+// a wrapper is transparent only if it draws from the one distribution object it stores, every time
+template <class T>
+class norepeat_dist
+{
+public:
+  using result_type = T;
+  using inner = std::uniform_int_distribution<T>;
+  using param_type = typename inner::param_type;
+  explicit norepeat_dist(param_type const &p) : d_(p) {}
+  template <class G>
+  T operator()(G &g)
+  {
+    T x = d_(g);
+    if (have_last_ && x == last_ && d_.a() < d_.b())
+      x = x == d_.b() ? d_.a() : static_cast<T>(x + 1);
+    have_last_ = true;
+    last_ = x;
+    return x;
+  }
+  void reset()
+  {
+    d_.reset();
+    have_last_ = false;
+  }
+  T min() const { return d_.min(); }
+  T max() const { return d_.max(); }
+  T a() const { return d_.a(); }
+  T b() const { return d_.b(); }
+  param_type param() const { return d_.param(); }
+  void param(param_type const &p) { d_.param(p); }
+  friend bool operator==(norepeat_dist const &l, norepeat_dist const &r)
+  {
+    return l.d_ == r.d_ && l.have_last_ == r.have_last_ && (!l.have_last_ || l.last_ == r.last_);
+  }
+  friend bool operator!=(norepeat_dist const &l, norepeat_dist const &r) { return !(l == r); }
+
+private:
+  inner d_;
+  bool have_last_ = false;
+  T last_{};
+};
+struct norepeat_wrapper
+{
+  template <class T>
+  struct apply
+  {
+    using type = norepeat_dist<T>;
+  };
+};
 struct probe_wrapper
 {
   template <class T>
@@ -802,9 +852,10 @@ void container_entry()
   unsigned const K = vf::tier(8U, 100U);
   std::uint64_t idx = 0;
   char const *const hows[] = {"make_uniform_container", "make_uniform_container_advanced<uniform_int_wrapper>",
-                              "make_uniform_container_advanced<user distribution>", "uniform_container(ref,param)"};
+                              "make_uniform_container_advanced<user distribution>", "uniform_container(ref,param)",
+                              "make_uniform_container_advanced<stateful user distribution>"};
   for (std::size_t n = 0; n <= 6; ++n)
-    for (unsigned how = 0; how < 4; ++how)
+    for (unsigned how = 0; how < 5; ++how)
     {
       // how == 3: every sub-interval of indices [ia,ib] of the container through the constructor
       std::size_t const subs = how == 3 ? n * (n + 1) / 2 : 1;
@@ -836,14 +887,14 @@ void container_entry()
           std::string const key = std::string(how == 0   ? "make_uniform_container<"
                                               : how == 3 ? "uniform_container<"
                                                          : "make_uniform_container_advanced<") +
-                                  cname + (how == 2 ? ",user-distribution>" : ">");
+                                  cname + (how == 2 ? ",user-distribution>" : how == 4 ? ",stateful-user-distribution>" : ">");
           // draws from w (an fcppt::random::wrapper::uniform_container) are judged against indices [ia,ib]
-          auto const draw_all = [&](auto &w) {
+          // sd: the wrapped distribution itself, drawn from with the std engine (the reference sequence)
+          auto const draw_all = [&](auto &w, auto sd) {
             using W = std::remove_cvref_t<decltype(w)>;
             static_assert(std::is_same_v<typename W::result_type, std::conditional_t<is_const, typename C::const_reference, typename C::reference>>);
             typename E::f g1{fseed<E>(seed)};
             typename E::s g2(sseed<E>(seed));
-            std::uniform_int_distribution<ST> sd(static_cast<ST>(ia), static_cast<ST>(ib));
             long non_element = -1;
             int_verdict v = run_ints(
                 static_cast<i128>(ia), static_cast<i128>(ib), ends_draws,
@@ -885,7 +936,8 @@ void container_entry()
             report_ints(key + "/" + E::name, v, static_cast<i128>(ia), static_cast<i128>(ib), ends_draws);
             check_generator_state<E>(g1, g2, key + "/" + E::name);
           };
-          auto const run_opt = [&](auto opt) {
+          std::uniform_int_distribution<ST> const plain_sd(static_cast<ST>(ia), static_cast<ST>(ib));
+          auto const run_opt = [&](auto opt, auto sd) {
             if (n == 0)
             {
               VF_COUNT("container/empty-container");
@@ -899,7 +951,7 @@ void container_entry()
               vf::violation(key + "/spurious-nothing", "mismatch", "nothing returned for a container of size " + std::to_string(n));
               return;
             }
-            draw_all(opt.get_unsafe());
+            draw_all(opt.get_unsafe(), sd);
           };
           auto const ref = [&]() {
             if constexpr (is_const)
@@ -910,16 +962,21 @@ void container_entry()
           static_assert(std::is_same_v<std::remove_cvref_t<decltype(ref)>, fcppt::reference<CC>>);
           switch (how)
           {
-          case 0: run_opt(fr::wrapper::make_uniform_container(ref)); break;
-          case 1: run_opt(fr::wrapper::make_uniform_container_advanced<frp::uniform_int_wrapper>(ref)); break;
-          case 2: run_opt(fr::wrapper::make_uniform_container_advanced<probe_wrapper>(ref)); break;
+          case 0: run_opt(fr::wrapper::make_uniform_container(ref), plain_sd); break;
+          case 1: run_opt(fr::wrapper::make_uniform_container_advanced<frp::uniform_int_wrapper>(ref), plain_sd); break;
+          case 2: run_opt(fr::wrapper::make_uniform_container_advanced<probe_wrapper>(ref), plain_sd); break;
+          case 4:
+            VF_COUNT("container/stateful-user-distribution");
+            run_opt(fr::wrapper::make_uniform_container_advanced<norepeat_wrapper>(ref),
+                    norepeat_dist<ST>(typename norepeat_dist<ST>::param_type(static_cast<ST>(ia), static_cast<ST>(ib))));
+            break;
           default:
           {
             using W = fr::wrapper::uniform_container<CC>;
             using P = typename W::param_type;
             W w(ref, P{typename P::min(static_cast<ST>(ia)), typename P::max(static_cast<ST>(ib))});
             VF_COUNT("container/constructor-sub-interval");
-            draw_all(w);
+            draw_all(w, plain_sd);
             break;
           }
           }
